@@ -501,6 +501,18 @@ func (x *Exec) specCall(s *State, e *CExpr, sc *specCtx) *Value {
 				ts = append(ts, ev(i).T)
 			}
 			return boolV(App(name, SBool, ts...))
+		case "unchanged":
+			// unchanged(): the chain state of the function's context equals the state at entry
+			if sc.entry == nil {
+				panic(execPanic{"contract: unchanged() without entry state"})
+			}
+			return boolV(worldEq(x.specWorld(s), sc.entry.Worlds[x.specWorldID]))
+		case "sameworld":
+			a, b := ev(0), ev(1)
+			if a.K != KCtx || b.K != KCtx {
+				panic(execPanic{"contract: sameworld needs two contexts"})
+			}
+			return boolV(worldEq(s.Worlds[a.W], s.Worlds[b.W]))
 		case "K":
 			// K("module"): the keeper of another comdex module (for reading its state in contracts)
 			name := args[0].Name
@@ -664,4 +676,71 @@ func (x *Exec) specCallFunc(s *State, f *types.Func, recv *Value, args []*Value)
 		return vals[0]
 	}
 	return &Value{K: KTuple, Fields: vals}
+}
+
+// worldEq states that two worlds hold the same chain state (all store families, bank ledger, header).
+func worldEq(a, b *World) *Term {
+	if a == nil || b == nil {
+		panic(execPanic{"contract: world comparison without world"})
+	}
+	if a == b {
+		return True
+	}
+	out := []*Term{Eq(a.Bal, b.Bal), Eq(a.Supply, b.Supply), Eq(a.Height, b.Height), Eq(a.Time, b.Time)}
+	ids := map[string]bool{}
+	for k := range a.Fams {
+		ids[k] = true
+	}
+	for k := range b.Fams {
+		ids[k] = true
+	}
+	for id := range ids {
+		fa, fb := a.Fams[id], b.Fams[id]
+		if fa == fb {
+			continue
+		}
+		nk := 0
+		if fa != nil {
+			nk = fa.NKeys
+		} else {
+			nk = fb.NKeys
+		}
+		if fa == nil {
+			fa = a.Clone().fam(id, nk)
+		}
+		if fb == nil {
+			fb = b.Clone().fam(id, nk)
+		}
+		out = append(out, Eq(fa.Has, fb.Has))
+		ps := map[string]bool{}
+		for p := range fa.Leaves {
+			ps[p] = true
+		}
+		for p := range fb.Leaves {
+			ps[p] = true
+		}
+		for p := range ps {
+			la, lb := fa.Leaves[p], fb.Leaves[p]
+			if la == nil && lb != nil {
+				la = baseLeaf(fa.Rest, id, p, lb.S)
+			}
+			if lb == nil && la != nil {
+				lb = baseLeaf(fb.Rest, id, p, la.S)
+			}
+			out = append(out, Eq(la, lb))
+		}
+	}
+	// the untouched remainders must denote the same state
+	out = append(out, Eq(a.Rest, b.Rest))
+	mods := map[string]bool{}
+	for m := range a.RestMod {
+		mods[m] = true
+	}
+	for m := range b.RestMod {
+		mods[m] = true
+	}
+	for m := range mods {
+		out = append(out, Eq(a.restOf(m), b.restOf(m)))
+	}
+	return And(out...)
 }
